@@ -186,6 +186,13 @@ def judge(case, v):
         i = v.get("diverged_in_call", -1)
         if 0 <= i < len(case["plan"]) and case["plan"][i] == "try":
             return "try_recv (call %d) went to sleep in the kernel: %s" % (i, v.get("why")), False
+    # the model ends a timed wait because a packet or the hang-up is there (the sender's call has returned), yet the
+    # receiving thread stayed in its wait for another 5 s: it does not "return early with the message or the disconnection"
+    if (not v.get("matched")) and "stays asleep in the kernel at 'pollret-ready'" in v.get("why", ""):
+        i = v.get("diverged_in_call", -1)
+        if 0 <= i < len(case["plan"]) and case["plan"][i] == "timeout":
+            return "try_recv_timeout (call %d) stayed in its wait although a message/disconnection was there: %s" % (
+                i, v.get("why")), False
     if v.get("matched") and "sends" in v:
         want = sorted((x["s"], x["j"], x["res"]) for x in case.get("slog", []))
         got_s = sorted((x[0], x[1], "ok" if x[2] else "err") for x in v["sends"])
